@@ -257,7 +257,12 @@ func Check(p *Program, opts CheckOpts) *Report {
 	for _, j := range jobs {
 		e := j.e
 		c := e.C
-		asserts := append([]*smt.Term{}, e.Axioms...)
+		asserts := make([]*smt.Term, 0, len(e.Axioms)+2)
+		for _, a := range e.Axioms {
+			if !j.o.DropAxioms[a.ID] {
+				asserts = append(asserts, a)
+			}
+		}
 		asserts = append(asserts, j.o.Guard, c.Not(j.o.Cond))
 		var mt []*smt.Term
 		if j.expect == "unsat" {
@@ -387,7 +392,12 @@ func Check(p *Program, opts CheckOpts) *Report {
 		}
 		e := j.e
 		c := e.C
-		base := append([]*smt.Term{}, e.Axioms...)
+		var base []*smt.Term
+		for _, a := range e.Axioms {
+			if !j.o.DropAxioms[a.ID] {
+				base = append(base, a)
+			}
+		}
 		base = append(base, j.o.Guard, c.Not(j.o.Cond))
 		var wconsts []*smt.Term
 		for _, w := range e.Witness {
